@@ -10,14 +10,16 @@ from .. import gen, model
 
 PROP = "C01"
 LEVEL = "exploration"
-MONITORS = ["id_equals_model", "golden", "injective", "dirname", "cross_session", "edited_handle_id"]
+MONITORS = ["id_equals_model", "golden", "injective", "dirname", "cross_session", "edited_handle_id", "reload_rederives_id"]
 DISTINCT = "nontrivial"
 RULE = (
     "State points = every nested JSON value over a small alphabet (null,bool,0,1,1.0,'1','é'; keys a,b; "
     "depth<=2 exhaustively, then seeded random values to depth 5 over a wider alphabet incl. 2^53-1, -0.0, "
     "1e22, 1e-7, control characters); each is hashed through every spelling (all key orders at every level, "
     "dict/OrderedDict/tuple-for-list/JSON round trip/synced collection/another job's .sp) "
-    "via calc_id, Project.open_job().id and the directory name made by init(). Non-trivial and distinct = "
+    "via calc_id, Project.open_job().id and the directory name made by init(); every 12th initialised job also has "
+    "its file replaced by near-miss values (extra key, missing key, 1 -> 1.0) and is opened by id in a new Project, "
+    "each accessor asked twice: whatever is presented must hash to the id. Non-trivial and distinct = "
     "distinct canonical JSON texts with at least one key whose every spelling was compared with the model."
 )
 ASSUMPTIONS = [
@@ -159,6 +161,41 @@ def spellings(ctx, project, sp, rng):
     yield "cached", dict(other.cached_statepoint)
 
 
+def _flip(v):
+    """The same value with the first number / bool leaf replaced by a Python-equal JSON value of another type."""
+    if isinstance(v, bool):
+        return int(v), True
+    if isinstance(v, int):
+        return float(v), True
+    if isinstance(v, float) and v == int(v) and abs(v) < 2 ** 53:
+        return int(v), True
+    if isinstance(v, dict):
+        out, done = {}, False
+        for k, x in v.items():
+            if not done:
+                x, done = _flip(x)
+            out[k] = x
+        return out, done
+    if isinstance(v, (list, tuple)):
+        out, done = [], False
+        for x in v:
+            if not done:
+                x, done = _flip(x)
+            out.append(x)
+        return out, done
+    return v, False
+
+
+def _near_misses(sp):
+    yield dict(sp, zz_other=1)
+    f, done = _flip(sp)
+    if done:
+        yield f
+    if sp:
+        k = sorted(sp)[0]
+        yield {kk: vv for kk, vv in sp.items() if kk != k}
+
+
 def check_sp(ctx, project, sp, rng, do_init):
     from signac.job import calc_id
 
@@ -239,6 +276,29 @@ def check_sp(ctx, project, sp, rng, do_init):
                                   "after an in-place edit job.id is not the canonical hash of job.statepoint()",
                                   {"sp": now, "edit": v, "id": job.id, "expected": want})
                     break
+        # the id is re-derived from the file on every load: a handle opened by id in a new session never
+        # presents a value that hashes to another id, however often and through whichever accessor it is asked
+        if _state["ninit"] % 12 == 6:
+            import signac
+            for other in _near_misses(sp):
+                ctx.monitor("reload_rederives_id")
+                with open(os.path.join(d, model.SP_FILE), "w") as f:
+                    json.dump(other, f)
+                h = signac.Project(project.path).open_job(id=expected)
+                for rnd in range(2):
+                    for how, get in (("statepoint()", lambda: h.statepoint()), ("sp", lambda: dict(h.sp)),
+                                     ("cached_statepoint", lambda: dict(h.cached_statepoint))):
+                        try:
+                            v = model.plain(get())
+                        except Exception:
+                            ctx.count("reload_refused")
+                            continue
+                        if h.id != model.model_id(v):
+                            ctx.violation("handle-presents-value-with-other-hash",
+                                          "a handle opened by id presents a state point that does not hash to its id",
+                                          {"id": h.id, "file": other, "presented": v, "accessor": how, "ask": rnd})
+            with open(os.path.join(d, model.SP_FILE), "w") as f:
+                json.dump(sp, f)
         _state["ninit"] += 1
         job.remove()
 
